@@ -210,6 +210,12 @@ def run_case(case):
 
     def judge(t, pred, raised, rng_out, before, why, name=None):
         mm = models[t]
+        if isinstance(raised, Warning):
+            # warnings-as-errors shard: the library warned and the warning was raised at that statement. Whether a
+            # warning is appropriate is not C02's business; that a call which raises changed nothing is
+            mon.count("library_warnings_raised_as_errors")
+            mon.eq("atomic", snapshot(t), before, f"{why}: raised {type(raised).__name__} but changed the query results of {mm.label}")
+            return False
         if raised is not None:
             mon.ok("refusal_class", isinstance(raised, (ValueError, TypeError)),
                    f"{why}: refusal must be ValueError/TypeError, got {type(raised).__name__}: {raised}")
